@@ -106,6 +106,10 @@ def texts_for(chk, fmt):
     texts = list(parsing.exhaustive(fmt, maxlen))
     for _ in range(chk.n(4000, 40000)):
         texts.append(parsing.random_text(fmt, rng))
+    for _ in range(chk.n(2500, 25000)):
+        t = parsing.structured(fmt, rng)
+        texts.append(t)
+        texts.append(parsing.mutate(t, rng, parsing.TOKENS[fmt]))
     return texts
 
 
@@ -119,14 +123,14 @@ def run(chk, runner_ok):
         for s in texts:
             res, es = parsing.impl_walk(fmt, s)
             impl.append(res)
-            loc = parsing.raw_walk(fmt, s, True) if es is not None else None
+            loc = parsing.raw_walk(fmt, s, True) if isinstance(es, list) else None
             o = parsing.oracle_c01(fmt, s, es, loc)
             if o:
                 chk.fail(f"{fmt}-{o[0]}", {"format": fmt, "text": s}, o[1])
             chk.evaluations += 1
-            if es is not None and len(es) >= 2:
+            if isinstance(es, list) and len(es) >= 2:
                 chk.distinct.add((fmt, s))
-            chk.hist(f"{fmt}_entries", min(len(es), 8) if es is not None else "hang")
+            chk.hist(f"{fmt}_entries", min(len(es), 8) if isinstance(es, list) else "hang-or-crash")
         chk.sample({"suite": f"PARSE-{fmt}", "text": texts[len(texts) // 2],
                     "impl": impl[len(texts) // 2]})
         if model:
@@ -166,7 +170,7 @@ def run(chk, runner_ok):
 
 def classify(fmt, s):
     res, es = parsing.impl_walk(fmt, s)
-    loc = parsing.raw_walk(fmt, s, True) if es is not None else None
+    loc = parsing.raw_walk(fmt, s, True) if isinstance(es, list) else None
     o = parsing.oracle_c01(fmt, s, es, loc)
     return ["violation", o[0]] if o else None
 
@@ -181,7 +185,7 @@ def replay(chk, path):
             o = oracle_ftl(c["text"], es, loc)
         else:
             res, es = parsing.impl_walk(c["format"], c["text"])
-            loc = parsing.raw_walk(c["format"], c["text"], True) if es is not None else None
+            loc = parsing.raw_walk(c["format"], c["text"], True) if isinstance(es, list) else None
             o = parsing.oracle_c01(c["format"], c["text"], es, loc)
         print("case", repr(c), "->", o)
         rc |= o is not None
